@@ -105,7 +105,19 @@ func (V *Verifier) render(o *Obligation, withModel bool) string {
 	return b.String()
 }
 
+var solverSem = make(chan struct{}, 28)
+
 func runSolver(cfg solverCfg, file string, timeout time.Duration, seed int) (string, string, time.Duration) {
+	return runSolverCtx(context.Background(), cfg, file, timeout, seed)
+}
+
+func runSolverCtx(parent context.Context, cfg solverCfg, file string, timeout time.Duration, seed int) (string, string, time.Duration) {
+	select {
+	case solverSem <- struct{}{}:
+	case <-parent.Done():
+		return "cancelled", "", 0
+	}
+	defer func() { <-solverSem }()
 	var args []string
 	ms := int(timeout / time.Millisecond)
 	switch cfg.kind {
@@ -116,7 +128,7 @@ func runSolver(cfg solverCfg, file string, timeout time.Duration, seed int) (str
 		args = append(args, cfg.args...)
 		args = append(args, fmt.Sprintf("--tlimit=%d", ms), fmt.Sprintf("--seed=%d", seed), "--produce-models", file)
 	}
-	ctx, cancel := context.WithTimeout(context.Background(), timeout+2*time.Second)
+	ctx, cancel := context.WithTimeout(parent, timeout+2*time.Second)
 	defer cancel()
 	cmd := exec.CommandContext(ctx, cfg.bin, args...)
 	var out bytes.Buffer
@@ -291,39 +303,90 @@ func (V *Verifier) solveOne(o *Obligation, opt solveOpts) {
 			outs = append(outs, "[qf-int] "+err.Error())
 		}
 	}
-	// 2: goal-directed instantiation (instantiate.go), bit-vector and integer renderings
-	var lastInst string
-	var lastSplits []string
-	for _, maxq := range []int{4, 12} {
-		inst, n, splits := instantiateObligation2(text, maxq)
-		if inst == "" {
-			break
+	// 2: race the remaining strategies; the first "unsat" wins. Derived variants
+	// (instantiated / integer-rendered) are sound for unsat only; the full query may
+	// also answer "sat".
+	type variant struct {
+		tag   string
+		text  string
+		cfg   solverCfg
+		exact bool // the full query: sat counts
+	}
+	var vs []variant
+	inst4, n4, splits := instantiateObligation2(text, 4)
+	if inst4 != "" {
+		tag := fmt.Sprintf("inst4:%d", n4)
+		if it, err := toIntRendering(inst4); err == nil {
+			vs = append(vs, variant{tag + "-int", it, cfgZ3New, false}, variant{tag + "-int", it, cfgCvc5, false})
 		}
-		lastInst, lastSplits = inst, splits
-		tag := fmt.Sprintf("inst%d:%d", maxq, n)
-		if it, err := toIntRendering(inst); err == nil {
-			if try(tag+"-int", it, []solverCfg{cfgZ3New, cfgCvc5}, opt.timeout) {
-				return
-			}
-		} else {
-			outs = append(outs, "["+tag+"-int] "+err.Error())
-		}
-		if try(tag, inst, []solverCfg{cfgZ3New, cfgCvc5}, short) {
-			return
+		vs = append(vs, variant{tag, inst4, cfgZ3New, false})
+	}
+	vs = append(vs, variant{"full", text, cfgCvc5Enum, true}, variant{"full", text, cfgZ3NewEuf, true}, variant{"full", text, cfgZ3New, true},
+		variant{"full", text, cfgZ3Old, true}, variant{"full", text, cfgZ3NewNoA, true})
+	if it, err := toIntRendering(text); err == nil {
+		vs = append(vs, variant{"full-int", it, cfgZ3New, false})
+	}
+	if inst12, n12, _ := instantiateObligation2(text, 12); inst12 != "" && n12 != n4 {
+		tag := fmt.Sprintf("inst12:%d", n12)
+		if it, err := toIntRendering(inst12); err == nil {
+			vs = append(vs, variant{tag + "-int", it, cfgZ3New, false})
 		}
 	}
-	// 2b: case split on the guards of the instances at the skolem constants: each case is
-	// solved separately (all must be unsat), which lets preprocessing specialise the query
-	if lastInst != "" && len(lastSplits) > 0 {
-		if len(lastSplits) > 3 {
-			lastSplits = lastSplits[:3]
+	type outcome struct {
+		res, solver, out string
+	}
+	ctx, cancel := context.WithCancel(context.Background())
+	ch := make(chan outcome, len(vs))
+	for i, v := range vs {
+		i, v := i, v
+		go func() {
+			vfile := file
+			if v.tag != "full" {
+				vfile = fmt.Sprintf("%s.v%d.smt2", strings.TrimSuffix(file, ".smt2"), i)
+				if err := os.WriteFile(vfile, []byte(v.text), 0o644); err != nil {
+					ch <- outcome{"error", v.cfg.name, err.Error()}
+					return
+				}
+				defer os.Remove(vfile)
+			}
+			res, out, _ := runSolverCtx(ctx, v.cfg, vfile, opt.timeout, opt.seed)
+			name := v.cfg.name
+			if v.tag != "full" {
+				name += "[" + v.tag + "]"
+			}
+			if !v.exact && res != "unsat" {
+				res = "unknown"
+			}
+			ch <- outcome{res, name, out}
+		}()
+	}
+	var final *outcome
+	for range vs {
+		oc := <-ch
+		outs = append(outs, fmt.Sprintf("[%s] %s %s", oc.solver, oc.res, firstLines(oc.out, 2)))
+		if final == nil && (oc.res == "unsat" || oc.res == "sat") {
+			o2 := oc
+			final = &o2
+			cancel()
 		}
-		base := strings.Replace(lastInst, "(check-sat)", "", 1)
+	}
+	cancel()
+	if final != nil {
+		finish(final.res, final.solver, final.out)
+		return
+	}
+	// 3: case split on the guards of the instances at the skolem constants: each case is
+	// solved separately (all must be unsat), which lets preprocessing specialise the query
+	if inst4 != "" && len(splits) > 0 {
+		if len(splits) > 3 {
+			splits = splits[:3]
+		}
+		base := strings.Replace(inst4, "(check-sat)", "", 1)
 		all := true
-		ncase := 1 << uint(len(lastSplits))
+		ncase := 1 << uint(len(splits))
 		for c := 0; c < ncase && all; c++ {
 			var lits []string
-			for i, a := range lastSplits {
+			for i, a := range splits {
 				if c&(1<<uint(i)) != 0 {
 					lits = append(lits, "(assert "+a+")")
 				} else {
@@ -332,22 +395,14 @@ func (V *Verifier) solveOne(o *Obligation, opt solveOpts) {
 			}
 			ctext := base + strings.Join(lits, "\n") + "\n(check-sat)\n"
 			okc := false
+			saved := *o
 			if it, err := toIntRendering(ctext); err == nil {
-				saved := *o
-				if try(fmt.Sprintf("case%d-int", c), it, []solverCfg{cfgZ3New, cfgCvc5}, opt.timeout) {
-					okc = true
-				}
-				if okc {
-					*o = saved
-				}
+				okc = try(fmt.Sprintf("case%d-int", c), it, []solverCfg{cfgZ3New, cfgCvc5}, opt.timeout)
 			}
 			if !okc {
-				saved := *o
-				if try(fmt.Sprintf("case%d", c), ctext, []solverCfg{cfgZ3New, cfgCvc5}, opt.timeout) {
-					okc = true
-					*o = saved
-				}
+				okc = try(fmt.Sprintf("case%d", c), ctext, []solverCfg{cfgZ3New, cfgCvc5}, opt.timeout)
 			}
+			*o = saved
 			if !okc {
 				all = false
 			}
@@ -357,28 +412,12 @@ func (V *Verifier) solveOne(o *Obligation, opt solveOpts) {
 			return
 		}
 	}
-	// 3: the full quantified query
-	cfgs := []solverCfg{cfgCvc5Enum, cfgZ3NewNoA, cfgZ3Old, cfgCvc5, cfgZ3NewEuf, cfgZ3New}
-	for _, tl := range []time.Duration{short, opt.timeout} {
-		for _, cfg := range cfgs {
-			res, out, _ := runSolver(cfg, file, tl, opt.seed)
-			outs = append(outs, fmt.Sprintf("[%s %v] %s", cfg.name, tl, firstLines(out, 3)))
-			if res == "sat" || res == "unsat" {
-				finish(res, cfg.name, out)
-				return
-			}
-			if res == "error" {
-				finish("error", cfg.name, out)
-				return
-			}
-		}
-		if tl == short {
-			if it, err := toIntRendering(text); err == nil {
-				if try("full-int", it, []solverCfg{cfgZ3New, cfgZ3NewNoA}, opt.timeout) {
-					return
-				}
-			}
-		}
+	if opt.seed != 0 {
+		// a proof found with any solver seed is a proof: retry once with the default seed
+		opt2 := opt
+		opt2.seed = 0
+		V.solveOne(o, opt2)
+		return
 	}
 	finish("unknown", "portfolio", strings.Join(outs, "\n"))
 }
